@@ -6,6 +6,8 @@ import Dashu.Proofs.Mem.Layout
 import Dashu.Proofs.Mem.PowLen
 import Dashu.Model.Mem.Arith2
 import Dashu.Model.Mem.Arith3
+import Dashu.Proofs.Mem.Arith4
+import Dashu.Gen.Scratch
 /-
   C17 — The hand-managed integer storage is memory-safe and keeps its invariants  (PARTIAL).
 
@@ -763,7 +765,7 @@ theorem skeleton_ops_ok_round4 (W mx sq : Nat) (f : Form) (bop : BitOp) (a b : L
     `split_bits`, `next_power_of_two`) and the `IBig` sign glue over the `UBig` skeletons (`/ % div_rem << >> pow`; a negative
     `>>` is a shift followed by a by-value subtraction on the shifted value) are histories over the proved alphabet too -/
 theorem skeleton_ops_ok_round4b (W mx sq kind : Nat) (f : Form) (fn : BitFn) (na nb byVal : Bool) (a b : List Nat) (k : Nat) :
-    (∀ op ∈ ((fragBitFn W fn a k).ops ++ (fragBitFn W fn a k).cleanup).map AOp.toOp, op.Ok mx) ∧
+    (∀ op ∈ ((fragBitFn W mx fn a k).ops ++ (fragBitFn W mx fn a k).cleanup).map AOp.toOp, op.Ok mx) ∧
     (∀ op ∈ ((fragSignedDiv W kind f na a nb b).ops ++ (fragSignedDiv W kind f na a nb b).cleanup).map AOp.toOp, op.Ok mx) ∧
     (∀ op ∈ ((fragSignedShl W mx byVal na a k).ops ++ (fragSignedShl W mx byVal na a k).cleanup).map AOp.toOp, op.Ok mx) ∧
     (∀ op ∈ ((fragSignedShr W sq byVal na a k).ops ++ (fragSignedShr W sq byVal na a k).cleanup).map AOp.toOp, op.Ok mx) ∧
@@ -771,7 +773,7 @@ theorem skeleton_ops_ok_round4b (W mx sq kind : Nat) (f : Form) (fn : BitFn) (na
   ⟨AOp.map_ok mx _, AOp.map_ok mx _, AOp.map_ok mx _, AOp.map_ok mx _, AOp.map_ok mx _⟩
 
 -- `set_bit(1536)` on a 4-word value: the value's own buffer grows (ensure_capacity, push_zeros, push)
-example : (fragBitFn 64 .setBit [1, 2, 3, 4] 1536).ops =
+example : (fragBitFn 64 1000 .setBit [1, 2, 3, 4] 1536).ops =
     [.intoTyped 0, .ensureCapacity 0 25, .pushZeros 0 20, .push 0 1, .fromBuffer 0] := by decide +kernel
 -- `-(2^197 - 1) >> 5 = -(2^192)`: shift in place, negate, subtract the rounding bit by value (carry into a 4th word)
 example : (fragSignedShr 64 30 true true (toWords 64 4 (2 ^ 197 - 1)) 5).res = 0 := by decide +kernel
@@ -899,5 +901,100 @@ example : ((fragDivRemBoth 64 .vv [1, 2, 3, 4] [5, 6, 7]).res, (fragDivRemBoth 6
     (0, some 1) := by decide +kernel
 -- 3^100: the word-base buffer path
 example : ((fragPow 64 ((2 ^ 64 - 1) / 64) 30 [3] 100).ops.length) = 8 := by decide +kernel
+
+-- ============================================================== round 5: sqrt, gcd, gcd_ext on C12's mirrored kernels
+
+/-- round 5 (`Model/Mem/Arith4.lean`): `UBig::sqrt()` (root_only: `from_buffer` on the raw 2n-word work buffer, whose high half
+    is what C12's mirrored `root::sqrt_rem` leaves there), `Gcd::gcd` of `UBig` and `IBig` (both operands copied; the copy
+    that holds the result is selected by the `swapped` flag of the mirrored Lehmer loop) and `ExtendedGcd::gcd_ext` of `UBig`
+    (by-value large operands become the work buffers; gcd in the smaller operand's buffer, `|b|` in the larger one's, `|a|`
+    copied out of the scratch block) in all ownership forms are histories over the proved alphabet, for all operands — so
+    `arithmetic_histories_keep_invariant` covers any interleaving of them with every other operation, whatever the
+    kernels write -/
+theorem skeleton_ops_ok_round5 (W mx sq : Nat) (f : Form) (a b : List Nat) :
+    (∀ op ∈ ((fragSqrt W sq a).ops ++ (fragSqrt W sq a).cleanup).map AOp.toOp, op.Ok mx) ∧
+    (∀ op ∈ ((fragGcd W f a b).ops ++ (fragGcd W f a b).cleanup).map AOp.toOp, op.Ok mx) ∧
+    (∀ op ∈ ((fragSignedGcd W f a b).ops ++ (fragSignedGcd W f a b).cleanup).map AOp.toOp, op.Ok mx) ∧
+    (∀ op ∈ ((fragGcdExt W f a b).ops ++ (fragGcdExt W f a b).cleanup).map AOp.toOp, op.Ok mx) :=
+  ⟨AOp.map_ok mx _, AOp.map_ok mx _, AOp.map_ok mx _, AOp.map_ok mx _⟩
+
+/-- the flag-tracking Lehmer loop of the gcd skeleton has, as its value, C12's mirrored `lehmerGcdLoop` — for every fuel,
+    operands and initial flag (the flag is the only thing C17 adds to C12's kernel) -/
+theorem gcd_skeleton_value_is_c12_loop (W fuel x y : Nat) (sw : Bool) :
+    (lehmerGcdLoopSw W fuel x y sw).map Prod.fst = NT.lehmerGcdLoop W fuel x y :=
+  Dashu.Proofs.Mem.lehmerGcdLoopSw_fst W fuel x y sw
+
+/-- the high half of the work buffer that `UBig::sqrt()` hands to `from_buffer` (`sqrtLeftover`) is computed from the same
+    inner call and the same `kDiv` as the top level of C12's mirrored `sqrtRemRec` (fuel `n`, as `sqrtRemKernel` runs
+    it): it is the `a_hi` that `kSub` subtracts there -/
+theorem sqrt_leftover_is_kernel_state (W : Nat) (prim : Nat → Nat × Nat) (n a : Nat) (hn : 2 < n) :
+    (NT.sqrtRemRec W prim n n a =
+      (let split := n / 2
+       let h := n - split
+       let B := 2 ^ (W * split)
+       let (s1, r1, r1top) := NT.sqrtRemRec W prim (n - 1) h (a / (B * B))
+       NT.kStep B (2 ^ (W * split - 1)) (2 ^ (W * h)) (2 ^ (W * n)) (decide (2 * split < n)) s1 r1 r1top (a / B % B) (a % B))) ∧
+    (sqrtLeftover W prim n a =
+      (let split := n / 2
+       let h := n - split
+       let B := 2 ^ (W * split)
+       let (s1, r1, r1top) := NT.sqrtRemRec W prim (n - 1) h (a / (B * B))
+       let (qlo, qtop, _, _) := NT.kDiv B (2 ^ (W * split - 1)) (2 ^ (W * h)) s1 r1 r1top (a / B % B)
+       if decide (2 * split < n) then (if qtop then 0 else qlo * qlo) + (if qtop then B * B else 0)
+       else (if qtop then 0 else qlo * qlo))) ∧
+    (∀ (B Mn : Nat) (odd : Bool) (qlo : Nat) (qtop : Bool) (u : Nat) (c : Int) (b0 : Nat),
+      (NT.kSub B Mn odd qlo qtop u c b0).1 =
+        (u * B + b0 + Mn -
+          (if odd then (if qtop then 0 else qlo * qlo) + (if qtop then B * B else 0) else (if qtop then 0 else qlo * qlo))) % Mn) :=
+  ⟨Dashu.Proofs.Mem.sqrtRemRec_top W prim n a hn, Dashu.Proofs.Mem.sqrtLeftover_top W prim n a hn,
+   Dashu.Proofs.Mem.kSub_uses_leftover⟩
+
+example := sqrt_leftover_is_kernel_state 64 (NT.sqrtRemDwordM 64) 3 (2 ^ 383 + 12345) (by decide)
+
+-- `sqrt` of the 6-word value 2^320 + 5 (shifted by 62 bits to 2^382 + 5·2^62, n = 3): the root 2^191 has a zero low word, so
+-- `q = 0` and the high half of the work buffer is zero: `from_buffer` pops the buffer down to the one-word remainder and
+-- frees it on the spot; for 2^383 + 12345 (root ≈ 2^191.5) the high half holds q² ≠ 0 and the buffer survives until `.1` drops
+example : sqrtLeftover 64 (NT.sqrtRemDwordM 64) 3 (2 ^ 382 + 5 * 2 ^ 62) = 0 := by decide +kernel
+example : sqrtLeftover 64 (NT.sqrtRemDwordM 64) 3 (2 ^ 383 + 12345) ≠ 0 := by decide +kernel
+-- `gcd` of two 3-word values by reference: both copied, scratch-free Lehmer, result from one copy, the other dropped
+example : ((fragGcd 64 .rr [6, 0, 9] [4, 0, 6]).ops.take 2, (fragGcd 64 .rr [6, 0, 9] [4, 0, 6]).panic) =
+    ([.bufFromView 2 0, .bufFromView 3 1], none) := by decide +kernel
+-- `gcd_ext` with both operands large and by value: no copy, the scratch block is the first event
+example : (fragGcdExt 64 .vv [1, 2, 3, 4] [5, 6, 7]).ops.take 3 =
+    [.intoTyped 0, .intoTyped 1, .allocScratch 7 (gcdExtScratchWords 4 3)] := by decide +kernel
+example : gcdExtScratchWords 4 3 = 17 := by decide +kernel   -- 7 (clones) + max(10 (t0, t1), 7 (residue))
+
+/-- **Tie A for the scratch blocks**: the sizes of the `MemoryAllocation` blocks in the storage skeletons (`mul`, `sqr`, `div`,
+    `sqrt_rem` / `sqrt`, `gcd`, `gcd_ext`) are the formulas REGENERATED from /repo (`Dashu.Gen.Scratch`, vlib/extract_scratch.py:
+    `memory_requirement_*` of mul / karatsuba / toom_3 / sqr / div / divide_conquer / root / gcd / lehmer and the
+    `clone_mem / gcd_mem / post_mem` combination inside gcd_ops.rs `gcd_ext_large`), with `math::ceil_log2` = `ceilLog2`.
+    A change of any of these source lines breaks this theorem (or the build), not only the sampled allocator streams. -/
+theorem scratch_formulas_regenerated (t n la lb : Nat) :
+    mulScratchWords n = Dashu.Gen.Scratch.mul_memory_requirement_up_to ceilLog2 t n ∧
+    sqrScratchWords Dashu.Gen.sqr_MAX_LEN_SIMPLE n = Dashu.Gen.Scratch.sqr_memory_requirement_exact ceilLog2 n ∧
+    divScratchWords la lb = Dashu.Gen.Scratch.div_memory_requirement_exact ceilLog2 la lb ∧
+    sqrtScratchWords Dashu.Gen.sqr_MAX_LEN_SIMPLE n = Dashu.Gen.Scratch.root_memory_requirement_sqrt_rem ceilLog2 n ∧
+    gcdScratchWords lb = Dashu.Gen.Scratch.gcd_large_scratch_words ceilLog2 la lb ∧
+    gcdExtScratchWords la lb = Dashu.Gen.Scratch.gcd_ext_large_scratch_words ceilLog2 la lb := by
+  have hmul : ∀ t n, mulScratchWords n = Dashu.Gen.Scratch.mul_memory_requirement_up_to ceilLog2 t n := by
+    intro t n
+    unfold mulScratchWords Dashu.Gen.Scratch.mul_memory_requirement_up_to Dashu.Gen.Scratch.karatsuba_memory_requirement_up_to Dashu.Gen.Scratch.toom_3_memory_requirement_up_to
+    rfl
+  have hsqr : ∀ n, sqrScratchWords Dashu.Gen.sqr_MAX_LEN_SIMPLE n = Dashu.Gen.Scratch.sqr_memory_requirement_exact ceilLog2 n := by
+    intro n
+    unfold sqrScratchWords Dashu.Gen.Scratch.sqr_memory_requirement_exact
+    rw [hmul (2 * n) n]
+  have hdiv : ∀ la lb, divScratchWords la lb = Dashu.Gen.Scratch.div_memory_requirement_exact ceilLog2 la lb := by
+    intro la lb
+    unfold divScratchWords Dashu.Gen.Scratch.div_memory_requirement_exact Dashu.Gen.Scratch.divide_conquer_memory_requirement_exact
+    rw [hmul lb]
+  refine ⟨hmul t n, hsqr n, hdiv la lb, ?_, ?_, ?_⟩
+  · unfold sqrtScratchWords Dashu.Gen.Scratch.root_memory_requirement_sqrt_rem
+    rw [hsqr, hdiv]
+  · unfold gcdScratchWords Dashu.Gen.Scratch.gcd_large_scratch_words Dashu.Gen.Scratch.gcd_memory_requirement_exact Dashu.Gen.Scratch.lehmer_memory_requirement_up_to
+    exact hmul lb (lb / 2)
+  · unfold gcdExtScratchWords Dashu.Gen.Scratch.gcd_ext_large_scratch_words Dashu.Gen.Scratch.gcd_memory_requirement_ext_exact Dashu.Gen.Scratch.lehmer_memory_requirement_ext_up_to
+      Dashu.Gen.Scratch.mul_memory_requirement_exact
+    simp only [hdiv, hmul la (la / 2), hmul (la + lb) lb]
 
 end Dashu.Props.C17
